@@ -365,18 +365,21 @@ Definition readline (timeout : option Z) (le : list N) (c : chan) : res (list N)
 (* ------------------------------------------------------------------ expect *)
 Record expect_result : Type := mkER { er_idx : nat; er_match : list N; er_before : list N; er_after : list N }.
 
+(* where a pattern matches in the buffer: bytes.find for literals, pattern.search for regexes *)
+Definition pat_hit (p : sstr) (buf : list N) : option (nat * nat) :=
+  match p with
+  | SLit l => match find_sub l buf with
+              | Some a => Some (a, a + length l)
+              | None => None
+              end
+  | SRe r => search r buf
+  end.
+
 Fixpoint try_patterns (i : nat) (pats : list sstr) (buf : list N) : option expect_result :=
   match pats with
   | [] => None
   | p :: ps =>
-      let hit := match p with
-                 | SLit l => match find_sub l buf with
-                             | Some a => Some (a, a + length l)
-                             | None => None
-                             end
-                 | SRe r => search r buf
-                 end in
-      match hit with
+      match pat_hit p buf with
       | Some (a, b) => Some (mkER i (sublist a b buf) (text (firstn a buf)) (text (skipn b buf)))
       | None => try_patterns (S i) ps buf
       end
@@ -490,3 +493,6 @@ Definition pop (c : chan) : chan :=
                 else streambuf l in
       with_ctx (with_lgs c (mkLg (remove_first_Z sid (streams l)) sb prevlp (sout l) (fwdb l))) rest
   end.
+
+(* keep tactics from unfolding the nat literals 4096 / 512 (vm_compute is not affected) *)
+Global Opaque READ_CHUNK_SIZE SEND_SLICE.
